@@ -209,6 +209,21 @@ CLAIMED["C03"] = {
     "design": "5 C03",
 }
 
+CLAIMED["C02"] = {
+    "text": "Optimizer.tla transcribes the default optimizer's rewrites (Constant_Fold of prefix/binary/logical operators on literals, "
+            "If with constant condition, Dead_Code, Return, Block/Scopeless_Block, For_Loop) as functions over ChaiCore ASTs; TLC checks "
+            "OptEquiv — the ChaiCore reference gives the same output, value and error class for e and Opt(e) — over trigger ASTs that "
+            "reach every rewrite and over generated programs, and a pinned configuration (DropIds=TRUE, the pre-fix Dead_Code) must be "
+            "rejected so the property is not vacuous. The same programs and a list of textual trigger programs are then evaluated in "
+            "the real engine with the default optimizer and with the identity optimizer (Optimizer<NopPass>), both compared to each "
+            "other and to the reference.",
+    "note": "Sampling over generated programs plus hand-written triggers per pass; the equivalence is observed on output, final value "
+            "and error class, not on timing or allocation. Known finding: declarations made by eval/use inside a block the Block pass "
+            "made scopeless.",
+    "technique": "TLA+ transcription of the optimizer passes checked by TLC against the TLA+ reference interpreter + differential replay into the implementation (optimized vs identity optimizer)",
+    "design": "5 C02",
+}
+
 PENDING_REASON = "check not built yet in this session; planned (see DESIGN.md section 8)"
 
 ALL = [f"C{i:02d}" for i in range(1, 21)]
